@@ -345,15 +345,12 @@ impl<T: AsRef<[u8]>> PartialEq<T> for OctetString {
             if part.len() > other.len() {
                 return false
             }
-            if part.len() == other.len() {
-                return part == other
-            }
             if part != &other[..part.len()] {
                 return false
             }
             other = &other[part.len()..]
         }
-        false
+        other.is_empty()
     }
 }
 
